@@ -96,31 +96,54 @@ def metricsJHandlers : List (String × JHandler) := [
         ("alpha", valJ p.alpha), ("beta", valJ p.beta), ("benchRate", valJ p.benchRate), ("benchApr", valJ p.benchApr)])),
   -- C19: the manager model on the projection "what does each strategy find in the objects it is handed";
   -- `effects` = [[posA, posB, cols, vals, cellsUser, cellsFill, prices], …] in submission order, tasks assigned round-robin to
-  -- the workers or all to one worker (the theorems say the assignment is irrelevant for the current code); answer `found` = per strategy
-  -- [positions on market 1, on market 2, references between markets intact, columns, values, depth missing, price cells]
+  -- the workers or all to one worker (the theorems say the assignment is irrelevant for the current code); `fails` = per strategy,
+  -- does its backtest end in an exception (missing: nobody fails).  Answer: `outcome` = "ok" (run() returned), "aborted" (run()
+  -- re-raised a backtest's exception) or the class run() raised before any backtest; `results` = per strategy, has it a result;
+  -- `found` = per strategy null (no result) or [positions on market 1, on market 2, references between markets intact, columns,
+  -- values, depth missing, price cells]
   ("manager", fun j => do
     let threads ← jNat j "threads"
     let attach ← jStr j "attach"
     let flag (k : String) (dflt : Bool) : Bool := match jOpt j k with | some (.bool b) => b | _ => dflt
     let cow := flag "cow" true
     let md : Manager.Mode := if attach == "original" then Manager.Mode.original cow else Manager.Mode.current cow
+    -- treatment of failing backtests: as the source says now (or as before the repair), unless the request fixes it
+    let fm0 : Manager.FailMode := if attach == "original" then Manager.FailMode.beforeRepair else Manager.FailMode.current
+    let fm : Manager.FailMode := ⟨flag "catches" fm0.catchesInProcess, flag "forkPoolWaits" fm0.forkPoolWaits,
+      flag "argsPoolWaits" fm0.argsPoolWaits⟩
     let effs ← jArr j "effects"
-    let strats ← effs.toList.mapM (fun e => match e with
+    let fails : List Bool ← match jOpt j "fails" with
+      | none => pure []
+      | some (.arr a) => a.toList.mapM (fun x => match x with
+          | .bool b => pure b
+          | _ => throw "fails: expected an array of booleans")
+      | some _ => throw "fails: expected an array of booleans"
+    if !fails.isEmpty && fails.length != effs.size then throw "fails: one entry per strategy expected"
+    let effects ← effs.toList.mapM (fun e => match e with
       | .arr #[a, b, c, v, nu, nf, p] => do
         let n (x : Json) : Except String Nat := do pure (← jRatOf x).num.toNat
-        pure (Manager.probeStrat ⟨← n a, ← n b, ← n c, ← n v, ← n nu, ← n nf, ← n p⟩)
+        pure (⟨← n a, ← n b, ← n c, ← n v, ← n nu, ← n nf, ← n p⟩ : Manager.Effect)
       | _ => throw "effects: expected [posA, posB, cols, vals, cellsUser, cellsFill, prices]")
+    let strats := effects.zipIdx.map (fun (e, i) => Manager.probeFStrat e (fails.getD i false))
     let cpu := match jOpt j "cpu" with | some (.num n) => n.mantissa.toNat | _ => 1024
     let env := Manager.probeEnv (flag "priceDec" false) (flag "linked" false)
     let cfg : Option Manager.PM := if flag "cfgNone" false then none else some (0, 0, true)
     let dat : Option Manager.PData := if flag "dataNone" false then none else some ⟨0, 0, 0, (0, false)⟩
-    -- scheduling: round-robin, or every task on the same worker (`oneWorker`): where the two answers differ the prediction
-    -- depends on the schedule (never with the current code)
+    -- scheduling: round-robin, or every task on the same worker (`oneWorker`); and, where tasks are fetched with `.get()`, every
+    -- later task finished when the first failure re-raises, or none of them (`noneFinished`): where the answers differ the
+    -- prediction depends on the schedule (never with the current code)
     let assign : Nat → Nat := if flag "oneWorker" false then (fun _ => 0) else (fun i => i % (max threads 1))
-    match Manager.managerRun env md threads cpu (flag "windows" false) (flag "ctxSet" false) assign cfg dat strats with
-    | .done obs => pure (Json.mkObj [("outcome", .str "ok"),
-        ("found", .arr (obs.map (fun o => Json.arr #[natJ o.1.1, natJ o.1.2.1, .bool o.1.2.2, natJ o.2.cols, natJ o.2.vals,
-          natJ o.2.cells, natJ o.2.prices.1])).toArray)])
+    let finished : Nat → Bool := if flag "noneFinished" false then (fun _ => false) else (fun _ => true)
+    let answer (outcome : String) (res : List (Option (Manager.PM × Manager.PData))) : Json :=
+      Json.mkObj [("outcome", .str outcome),
+        ("results", .arr (res.map (fun r => Json.bool r.isSome)).toArray),
+        ("found", .arr (res.map (fun r => match r with
+          | none => Json.null
+          | some o => Json.arr #[natJ o.1.1, natJ o.1.2.1, .bool o.1.2.2, natJ o.2.cols, natJ o.2.vals,
+              natJ o.2.cells, natJ o.2.prices.1])).toArray)]
+    match Manager.managerRunF env md fm threads cpu (flag "windows" false) (flag "ctxSet" false) assign finished cfg dat strats with
+    | .done res => pure (answer "ok" res)
+    | .aborted res => pure (answer "aborted" res)
     | .raised cls => pure (Json.mkObj [("outcome", .str cls)]))
 ]
 
